@@ -9,6 +9,7 @@ import (
 	"sort"
 	"strings"
 	"sync"
+	"time"
 
 	"github.com/gkampitakis/go-snaps/internal/verifhook/sched"
 )
@@ -353,7 +354,8 @@ func c06Run(c *vfCtx, cs c06Case) {
 	distinctOutcomes := map[string]bool{}
 	execs := 0
 	reported := 0
-	st := sched.Explore(cs.Bound, nil, cs.MaxExec, mk, func(x *sched.Exec) bool {
+	stop := func() bool { return !c.deadline.IsZero() && time.Now().After(c.deadline) }
+	st := sched.ExploreUntil(cs.Bound, nil, cs.MaxExec, stop, mk, func(x *sched.Exec) bool {
 		execs++
 		c.count("transitions", int64(len(x.Points)))
 		data, _ := os.ReadFile(filepath.Join(w.dir, "f.snap"))
@@ -389,7 +391,9 @@ func c06Run(c *vfCtx, cs c06Case) {
 	c.count("pruned_executions", int64(st.Pruned))
 	c.count("violating_schedules", int64(reported))
 	if st.Capped {
-		c.cap(fmt.Sprintf("max_exec=%d", cs.MaxExec))
+		c.cap("deadline-or-max_exec")
+		c.stopped = true
+		c.outcome(fmt.Sprintf("CAPPED threads=%v bound=%d after %d schedules", cs.Threads, cs.Bound, st.Executions))
 	}
 	if int64(st.MaxPoints) > c.counters["max_points_per_execution"] {
 		c.counters["max_points_per_execution"] = int64(st.MaxPoints)
@@ -463,23 +467,37 @@ func c06Gen(c *vfCtx, emit func(c06Case)) {
 		}
 		c.bound("families", "2x1 all16@pb3; 2x2 diagonal16@pb2; 3x1 all64@pb1; 3x1 {create,update}^3@pb2; mixes with standalone/Skip 16@pb2")
 	} else {
+		// 2 threads x 1 call: unbounded (every schedule), with state-key pruning
 		for _, a := range kindsets(2, c06Kinds) {
 			scen([][]string{{a[0]}, {a[1]}}, -1)
 		}
+		// 2 threads x 2 calls: all 256 assignments at preemption bound 2, the diagonal at bound 3
 		for _, a := range kindsets(4, c06Kinds) {
-			scen([][]string{{a[0], a[1]}, {a[2], a[3]}}, -1)
+			scen([][]string{{a[0], a[1]}, {a[2], a[3]}}, 2)
 		}
+		for _, a := range kindsets(2, c06Kinds) {
+			scen([][]string{{a[0], a[0]}, {a[1], a[1]}}, 3)
+		}
+		// 3 threads x 1 call: all 64 assignments at bound 2
 		for _, a := range kindsets(3, c06Kinds) {
 			scen([][]string{{a[0]}, {a[1]}, {a[2]}}, 2)
-			scen([][]string{{a[0]}, {a[1]}, {a[2]}}, -1)
 		}
 		for _, k := range c06Kinds {
 			for _, e := range extras {
-				scen([][]string{{k, e}, {e, "create"}}, -1)
-				scen([][]string{{k}, {e}, {"create", e}}, -1)
+				scen([][]string{{k, e}, {e, "create"}}, 3)
+			}
+			for _, e := range []string{"sa-create", "sj-update", "skip"} {
+				scen([][]string{{k}, {e}, {"create", e}}, 2)
 			}
 		}
-		c.bound("families", "2x1 all16 unbounded; 2x2 all256 unbounded; 3x1 all64 @pb2 and unbounded; mixes with standalone/Skip unbounded (state-key pruning)")
+		for _, e := range []string{"sa-create", "sa-update", "sa-match"} {
+			for _, j := range []string{"sj-create", "sj-update", "sj-match"} {
+				scen([][]string{{j, e}, {e}}, 3)
+				scen([][]string{{e}, {j}}, -1)
+			}
+		}
+		c.bound("families", "2x1 all16 unbounded (state-key pruning); 2x2 all256@pb2 + diagonal16@pb3; 3x1 all64@pb2; mixes with standalone/Skip 24@pb3 and 12 three-thread@pb2; one Config for MatchStandaloneJSON+MatchStandaloneSnapshot 9@pb3 + 9 unbounded")
+		c.note("measured: unbounded exploration with the conservative state key finishes for 2 threads x 1 call (3.3e4 schedules, 6.9e4 state keys per scenario) but not for 3x1 or 2x2 within the deadline (>9e6 transitions); those use preemption bounds")
 	}
 	c.bound("scheduling_points", "every lock operation of vsync.Mutex/RWMutex and every file-system operation of vos")
 }
